@@ -21,6 +21,7 @@ META = {
     "assumptions": ["cursor + small constant does not overflow SizeT"],
 }
 META["explanation"] += " " + '(TB-casepair, shared with C06) both spellings of the exponent marker are tested together.'
+META["explanation"] += " " + '(PR-expmarker, PR-accumulate: shared with C06) an exponent marker under the cursor is consumed by the exponent scanner; recognised digits are accumulated.'
 
 U64 = (1 << 64) - 1
 
